@@ -210,9 +210,88 @@ def _pin_rule(chk, prog):
                           "the janet_gcunroot matching the root taken in %s is skipped on some path of %s" % (fn.name, f2.name))
 
 
+def _pendroot_rule(chk, prog):
+    """A fiber queued on a THREADED channel's pending list is rooted by the registration (nothing else keeps a parked
+    fiber of another thread's channel alive).  Whoever takes such a record out of the queue takes over the duty to
+    release that root: by handing the record to janet_thread_chan_cb (which unroots) or by janet_gcunroot on the spot.
+    A consumer that resumes or drops the waiter without either leaves the fiber pinned for the life of the VM."""
+    rule = "C20-PENDROOT"
+    chk.rule(rule, "every consumer of a pending-waiter record of a possibly-threaded channel releases the registration's root")
+    tu = prog.tus["ev.c"]
+    n = 0
+    for fn in tu.funcs.values():
+        pops = []
+        for c in fn.calls("janet_q_pop"):
+            if len(c.args) >= 2 and any(y.k == "mem" and y.field in ("read_pending", "write_pending") for y in c.args[0].walk()):
+                rec = strip_casts(c.args[1])
+                if rec.k == "un" and rec.op == "&" and is_ref(strip_casts(rec.kids[0])):
+                    pops.append((c, strip_casts(rec.kids[0]).name))
+        if not pops:
+            continue
+        chk.analysed(fn)
+        popmap = dict((c.id, r) for c, r in pops)
+        thrvars = set(x.name for x in fn.nodes if x.k == "vardecl" and x.kids and strip_casts(x.kids[0]).k == "call"
+                      and strip_casts(x.kids[0]).callee == "janet_chan_is_threaded")
+        alias = {}
+        for x in fn.nodes:
+            if x.k == "asg" and x.op == "=" and is_ref(x.kids[0]) and strip_casts(x.kids[1]).k == "call" and strip_casts(x.kids[1]).id in popmap:
+                alias[x.kids[0].name] = popmap[strip_casts(x.kids[1]).id]
+        bad = {}
+
+        def transfer(st, x):
+            if x.k == "call" and x.id in popmap:
+                r = popmap[x.id]
+                if ("popped", r) in st and ("released", r) not in st and "nothr" not in st:
+                    bad.setdefault(r, x)
+                return frozenset(f for f in st if not (isinstance(f, tuple) and f[1] == r))
+            if x.k == "call" and x.callee == "janet_ev_post_event" and any(is_ref(strip_casts(a), "janet_thread_chan_cb") for a in x.args):
+                return st | frozenset(("released", f[1]) for f in st if isinstance(f, tuple) and f[0] == "popped")
+            if x.k == "call" and x.callee == "janet_gcunroot":
+                names = set(y.name for y in x.walk() if y.k == "ref")
+                return st | frozenset(("released", f[1]) for f in st if isinstance(f, tuple) and f[0] == "popped" and f[1] in names)
+            return st
+
+        def edge(st, blk, succ, cond, truth):
+            c = flow.compare_of(cond, truth)
+            if c is None:
+                return st
+            l, op, r = strip_casts(c[0]), c[1], c[2]
+            if r is None:
+                if l.k == "call" and l.id in popmap:
+                    return st | {("popped", popmap[l.id])} if op == "==" else st
+                if is_ref(l) and l.name in alias:
+                    return st | {("popped", alias[l.name])} if op == "==" else st
+                if (is_ref(l) and l.name in thrvars) or (l.k == "call" and l.callee == "janet_chan_is_threaded"):
+                    if op == "!=":
+                        return None if "nothr" in st else st | {"thr"}
+                    return None if "thr" in st else st | {"nothr"}
+            return st
+        IN, OUT, T = flow.forward_paths(fn, frozenset(), transfer, edge=edge)
+        for b, kind in flow.exits(fn):
+            if b.id not in OUT:
+                continue
+            for ps in OUT[b.id]:
+                for f in ps:
+                    if isinstance(f, tuple) and f[0] == "popped" and ("released", f[1]) not in ps and "nothr" not in ps:
+                        bad.setdefault(f[1], b.elems[-1] if b.elems else None)
+        for c, r in pops:
+            n += 1
+            chk.instance(rule)
+            if r in bad:
+                at = bad[r]
+                chk.violation(rule, "ev.c", fn.name, "pending:%s" % r, c.loc,
+                              "a waiter record `%s` taken from the pending queue can leave %s (%s) with the channel possibly threaded and "
+                              "neither handed to janet_thread_chan_cb nor janet_gcunroot'ed: the fiber stays rooted forever" % (
+                                  r, fn.name, at.loc if at is not None else "end"))
+            else:
+                chk.ok(rule, "%s: record `%s` popped at %s always releases (or the channel is not threaded)" % (fn.name, r, c.loc))
+    chk.floor(rule, 6, n)
+
+
 def run(chk):
     prog = Program.load("default")
     _pin_rule(chk, prog)
+    _pendroot_rule(chk, prog)
     from rules import c20_fd
     c20_fd.run(chk, prog)
     _pending_rule(chk, prog)
